@@ -540,7 +540,55 @@ fn read_check(ctx: &Ctx) {
     ctx.count("read_lines", lines.len() as i64);
 }
 
+/// `$*` where no field splitting takes place (assignment value, `case` word, here-document,
+/// `export x=$*`): the positional parameters joined by the first character of IFS (a space if IFS
+/// is unset, nothing if it is empty) - dash and bash agree.
+fn star_in_single_field_contexts(ctx: &Ctx) {
+    let lists: [&[&str]; 6] = [&["a", "b c", "d"], &["a"], &["", "a", ""], &["x y"], &["a", "b"], &["-", ":"]];
+    let ifss: [Option<&str>; 5] = [None, Some(""), Some(":"), Some(" :"), Some("-x")];
+    let sq = |s: &str| format!("'{}'", s.replace('\'', "'\\''"));
+    for list in lists {
+        for ifs in ifss {
+            let sep = match ifs {
+                None => " ".to_string(),
+                Some(s) => s.chars().next().map(|c| c.to_string()).unwrap_or_default(),
+            };
+            let joined = list.join(&sep);
+            let mut script = String::from("set -f\n");
+            script.push_str(&format!("set -- {}\n", list.iter().map(|p| sq(p)).collect::<Vec<_>>().join(" ")));
+            match ifs {
+                None => script.push_str("unset IFS\n"),
+                Some(s) => script.push_str(&format!("IFS={}\n", sq(s))),
+            }
+            script.push_str("x=$*; probe assign \"$x\"\n");
+            script.push_str("y=${*}; probe assign-braced \"$y\"\n");
+            script.push_str(&format!("case $* in {}) probe case yes;; *) probe case no;; esac\n", sq(&joined)));
+            script.push_str("export z=$*; probe export \"$z\"\n");
+            script.push_str("v=\"$*\"; probe quoted \"$v\"\n");
+            let out = crate::vsh::run_script(&script, crate::sched::Strategy::Fifo);
+            ctx.evals(5);
+            let got: Vec<String> = out.events.iter().filter(|e| e.kind == "probe").map(|e| e.args.join("\u{1}")).collect();
+            let want: Vec<String> = vec![
+                format!("assign\u{1}{joined}"),
+                format!("assign-braced\u{1}{joined}"),
+                "case\u{1}yes".to_string(),
+                format!("export\u{1}{joined}"),
+                format!("quoted\u{1}{joined}"),
+            ];
+            if got != want {
+                ctx.violation(
+                    "star-single-field",
+                    format!("positional parameters {list:?}, IFS {ifs:?}: expected {want:?}, yash {got:?}\nscript:\n{script}stderr:\n{}", out.err()),
+                );
+            } else {
+                ctx.nontrivial(crate::util::fnv_str(&script));
+            }
+        }
+    }
+}
+
 pub fn run(ctx: &Ctx) {
+    star_in_single_field_contexts(ctx);
     exhaustive(ctx);
     read_check(ctx);
     *ctx.exhaustive.lock().unwrap() = Some(true);
